@@ -5,6 +5,7 @@ CONSTANTS
   MetaKeys = {"d", "l"}
   Values = {"x", "y"}
   AtomicSave = FALSE
+  CommitOnError = FALSE
   DropStaleIndex = TRUE
 INVARIANTS HashLookupExact SavedRetrievable
 PROPERTIES HeightOnlyGrows
